@@ -4,7 +4,7 @@
    any field with 2 <> 0): f(x+u) = f(x) + L u + B(u,u)/2, L linear, B symmetric bilinear -- with
    B(h_i e_i, h_j e_j) = h_i h_j Q_ij this is "entry (i,j) equals Q_ij after dividing by h_i h_j". *)
 From Coq Require Import List Field.
-Require Import NDT.Arith.Ops NDT.Model.Pipeline NDT.Model.ArrayCall NDT.Theory.ArrayCallTheory NDT.Theory.HessianTheory.
+Require Import NDT.Arith.Ops NDT.Model.Pipeline NDT.Model.ArrayCall NDT.Model.HessStencil NDT.Theory.ArrayCallTheory NDT.Theory.HessianTheory.
 Import ListNotations.
 
 Theorem C04_exactly_symmetric {A} (O : Ops A) tf thr c8 c15 ch der hs rr n i j d : i < n -> j < n ->
@@ -55,4 +55,33 @@ Theorem C04_hessdiag_central2 a :
 Proof. exact (hessdiag_central2_id R r0 r1 radd rmul rsub ropp rdiv rinv Rth two_neq0 V vadd vneg x f f0 L B f_quad L_add L_neg B_addl B_addr B_negl B_negr a). Qed.
 Theorem C04_hessdiag_central_even a : rsub (rdiv (radd (f (vadd x a)) (f (vadd x (vneg a)))) TWO) f0 = rdiv (B a a) TWO.
 Proof. exact (hessdiag_central_even_id R r0 r1 radd rmul rsub ropp rdiv rinv Rth two_neq0 V vadd vneg x f f0 L B f_quad L_neg B_negl B_negr a). Qed.
+
+(* The same for the EXECUTABLE stencil model (Model/HessStencil.v: the source's order of operations and its division by
+   np.outer(h, h)[j, i] = h[j] * h[i]; compared bit-for-bit with HessianDifferenceFunctions / HessdiagDifferenceFunctions on every run),
+   instantiated with this field: with a, b the increments of variables i, j and hi, hj their sizes, every entry is B(a, b) / (hj hi) *)
+Notation OPS := (OpsQ R r0 r1 radd rmul rsub ropp rdiv).
+Theorem C04_model_forward a b hi hj : hi <> r0 -> hj <> r0 ->
+  hess_forward_entry OPS (f (vadd x (vadd a b))) (f (vadd x a)) (f (vadd x b)) f0 hi hj = rdiv (B a b) (rmul hj hi).
+Proof. intros; eapply hess_forward_entry_quad; eassumption. Qed.
+Theorem C04_model_backward a b hi hj : hi <> r0 -> hj <> r0 ->
+  hess_forward_entry OPS (f (vadd x (vadd (vneg a) (vneg b)))) (f (vadd x (vneg a))) (f (vadd x (vneg b))) f0 (ropp hi) (ropp hj) = rdiv (B a b) (rmul hj hi).
+Proof. intros; eapply hess_backward_entry_quad; eassumption. Qed.
+Theorem C04_model_central2 a b hi hj : hi <> r0 -> hj <> r0 ->
+  hess_central2_entry OPS (f (vadd x (vadd a b))) (f (vadd x (vadd (vneg a) (vneg b)))) (f (vadd x a)) (f (vadd x b)) (f (vadd x (vneg a))) (f (vadd x (vneg b))) f0 hi hj
+  = rdiv (B a b) (rmul hj hi).
+Proof. intros; eapply hess_central2_entry_quad; eassumption. Qed.
+Theorem C04_model_central_diagonal a hi : hi <> r0 ->
+  hess_central_diag_entry OPS (f (vadd x (vadd a a))) (f (vadd x (vadd (vneg a) (vneg a)))) f0 hi = rdiv (B a a) (rmul hi hi).
+Proof. intros; eapply hess_central_diag_entry_quad; eassumption. Qed.
+Theorem C04_model_central_off_diagonal a b hi hj : hi <> r0 -> hj <> r0 ->
+  hess_central_off_entry OPS (f (vadd x (vadd a b))) (f (vadd x (vadd a (vneg b)))) (f (vadd x (vadd (vneg a) b))) (f (vadd x (vadd (vneg a) (vneg b)))) hi hj = rdiv (B a b) (rmul hj hi).
+Proof. intros; eapply hess_central_off_entry_quad; eassumption. Qed.
+Theorem C04_model_hessdiag a :
+  hd_central2 OPS (f (vadd x (vadd a a))) (f (vadd x (vadd (vneg a) (vneg a)))) (f (vadd x a)) (f (vadd x (vneg a))) f0 = rdiv (B a a) TWO /\
+  hd_central_even OPS (f (vadd x a)) (f (vadd x (vneg a))) f0 = rdiv (B a a) TWO /\
+  hd_forward OPS (f (vadd x a)) f0 = radd (L a) (rdiv (B a a) TWO) /\
+  hd_backward OPS (f (vadd x (vneg a))) f0 = rsub (L a) (rdiv (B a a) TWO).
+Proof.
+  repeat split; [eapply hd_central2_quad | eapply hd_central_even_quad | eapply hd_forward_quad | eapply hd_backward_quad]; eassumption.
+Qed.
 End Quadratic.
